@@ -25,6 +25,11 @@ func main() {
 	case "dumpprogs":
 		os.MkdirAll("/tmp/gp", 0755)
 		dumpProgs(20)
+	case "replay":
+		if len(os.Args) < 3 {
+			usage()
+		}
+		os.Exit(runReplay(os.Args[2]))
 	case "C10":
 		if len(os.Args) < 3 {
 			usage()
